@@ -1,3 +1,4 @@
 //! The seams the simulator owns: byte sources, sinks, (later) async I/O.
+pub mod aio;
 pub mod read;
 pub mod write;
